@@ -74,7 +74,7 @@ pub fn pool(theme: Theme, rng: &mut Rng) -> Vec<String> {
             return v;
         }
         Theme::CaseVariants => vec!["Foo", "foo", "FOO", "fOO", "foO", "Bar", "bar", "fooBar", "FooBar", "foobar"],
-        Theme::Separators => vec!["a-b", "a.b", "a_b", "AB", "aB", "Ab", "ab", "a--b", "a-b-c", "a_b.c", "x"],
+        Theme::Separators => vec!["a-b", "a.b", "a_b", "AB", "aB", "Ab", "ab", "a--b", "a-b-c", "a_b.c", "x", "a-1b", "item_2nd", "a__1b", "mp.3x", "h1", "l2_t", "a-1B"],
         Theme::Prefixed => vec!["p:x", "q:x", "x", "p:y", "xmlns:p", "xmlns:q", "xml:lang", "p:a-b", "q:type", "y", "xmlns"],
         Theme::Concat => vec!["Total", "Price", "TotalPrice", "total_price", "b", "c", "d", "d_c", "b_c", "bc", "B", "C", "Bc"],
         Theme::Prelude => vec!["String", "string", "Option", "option", "Vec", "vec", "Serialize", "Deserialize", "serialize", "Box", "Self", "self", "x"],
